@@ -110,6 +110,7 @@ class Fn:
         self._dom = None
         self._defs = None
         self._reach_cache = {}
+        self.inlined_from = list(d.get("inlined_from", []))
 
     # ---- naming ------------------------------------------------------------------------
     def local_name(self, l):
@@ -427,14 +428,13 @@ class Program:
         for f in sorted(glob.glob(os.path.join(facts_dir, "*.json"))):
             with open(f) as fh:
                 loaded.append(json.load(fh))
-        # a function that was merely renamed keeps its reviewed name (tables/fn_fingerprints.json)
-        self.renamed = detect_renames([fd for d in loaded for fd in d["fns"]]) if apply_renames else {}
-        if self.renamed:
-            for d in loaded:
-                for fd in d["fns"]:
-                    if fd["id"] in self.renamed and fd.get("name"):
-                        fd["name"] = short(self.renamed[fd["id"]]) if False else self.renamed[fd["id"]].rsplit("::", 1)[-1]
-            loaded = [dict(d, fns=_rename_strings(d["fns"], self.renamed), impls=_rename_strings(d["impls"], self.renamed)) for d in loaded]
+        # the facts are brought into the shape of the reviewed tree where the difference is a pure re-shaping (see canon.py):
+        # renamed / moved functions, permuted parameters, new helpers spliced into their callers
+        self.renamed, self.canon_notes, away = {}, [], {}
+        if apply_renames:
+            from . import canon
+            self.canon_notes, self.renamed, away = canon.canonicalise(loaded, FINGERPRINTS)
+        self.inlined_fns = {}
         self.renamed_fields = detect_field_renames([a for d in loaded for a in d["adts"]]) if apply_renames else {}
         if self.renamed_fields:
             for d in loaded:
@@ -466,6 +466,8 @@ class Program:
             for s in d["statics"]:
                 s["crate"] = crate
                 self.statics[s["id"]] = s
+        for fid, (fd, crate) in away.items():
+            self.inlined_fns[fid] = Fn(fd, crate)
         with open(os.path.join(facts_dir, "COMPLETE")) as fh:
             self.meta = json.load(fh)
         self._build_callgraph()
@@ -783,7 +785,7 @@ def inlined(prog, fn, max_rounds=4, keep=()):
         if not did:
             break
     view = Fn(d, fn.crate)
-    view.inlined_from = inl
+    view.inlined_from = list(dict.fromkeys(list(d.get("inlined_from", [])) + inl))
     view.original = fn
     return view
 
